@@ -219,4 +219,486 @@ theorem copy_into_row_major_eq (src dst : Mat α) (off : Nat) (hs : Mat.wf' src)
       rw [this, show src.rows + (nrows dst - nrows src) = dst.rows by simp only [nrows]; omega]
       cases blitCols src dst.rows 0 src.cols dst.data off <;> rfl
 
+/-! ### the table: dispatch and `solve` compute `hcatAll` / `vcatAll` -/
+
+/-- the closed forms, by routine -/
+def modelImpl : Routine → Mat α → Mat α → Nat → Except Err (Mat α × Nat)
+  | .copy_into_row_major => copyRowMajor
+  | _ => copyLin
+
+def Routine.linear : Routine → Bool
+  | .copy_into_row_major => false
+  | _ => true
+
+theorem gen_impl_eq (r : Routine) (src dst : Mat α) (off : Nat) (hs : Mat.wf' src) :
+    Gen.ConcatKernels.impl r src dst off = modelImpl r src dst off := by
+  cases r
+  · exact copy_into_eq src dst off hs
+  · exact copy_into_v_eq src dst off hs
+  · exact copy_into_r_eq src dst off hs
+  · exact copy_into_row_major_eq src dst off hs
+
+/-- writing inside the middle of three segments -/
+theorem blit_mid (x pre mid post : List α) (h : x.length ≤ mid.length) :
+    blit x (pre ++ mid ++ post) pre.length = .ok (pre ++ x ++ mid.drop x.length ++ post) := by
+  unfold blit
+  by_cases h0 : x.length = 0
+  · have : x = [] := List.length_eq_zero_iff.mp h0
+    subst this
+    simp
+  · have hle : pre.length + x.length ≤ (pre ++ mid ++ post).length := by simp only [List.length_append]; omega
+    simp only [h0, if_false, hle, if_true, Except.ok.injEq]
+    apply List.ext_getElem?
+    intro k
+    simp only [List.getElem?_append, List.length_take, List.length_append, List.getElem?_take,
+      List.getElem?_drop, List.length_drop]
+    grind
+
+theorem hcatAll_data : ∀ (bs : List (Mat α)) (acc : Mat α), (∀ b ∈ bs, b.rows = acc.rows) →
+    hcatAll acc bs = .ok ⟨acc.rows, acc.cols + sumCols bs, acc.data ++ bs.flatMap (·.data)⟩ := by
+  intro bs
+  induction bs with
+  | nil => intro acc _; simp [hcatAll, sumCols]
+  | cons b bs ih =>
+    intro acc h
+    have hb : acc.rows = b.rows := (h b List.mem_cons_self).symm
+    simp only [hcatAll, hcat2, hb, if_true]
+    rw [ih _ (fun x hx => by simpa [hb] using h x (List.mem_cons_of_mem _ hx))]
+    simp [sumCols, Nat.add_assoc]
+
+theorem colOf_zero (m : Mat α) (hm : Mat.wf' m) (hc : m.cols = 1) : colOf m 0 = m.data := by
+  unfold colOf
+  simp only [Nat.zero_mul, List.drop_zero]
+  apply List.take_of_length_le
+  rw [hm, hc]; omega
+
+theorem vcatAll_col1 : ∀ (bs : List (Mat α)) (acc : Mat α), Mat.wf' acc → (∀ b ∈ bs, Mat.wf' b) → acc.cols = 1 →
+    (∀ b ∈ bs, b.cols = 1) →
+    vcatAll acc bs = .ok ⟨acc.rows + sumRows bs, 1, acc.data ++ bs.flatMap (·.data)⟩ := by
+  intro bs
+  induction bs with
+  | nil => intro acc _ _ hc _; cases acc; simp_all [vcatAll, sumRows]
+  | cons b bs ih =>
+    intro acc ha hwf hc h
+    have hb : b.cols = 1 := h b List.mem_cons_self
+    have hbw : Mat.wf' b := hwf b List.mem_cons_self
+    have h2 : vcat2 acc b = .ok ⟨acc.rows + b.rows, 1, acc.data ++ b.data⟩ := by
+      simp [vcat2, hc, hb, colOf_zero acc ha hc, colOf_zero b hbw hb]
+    simp only [vcatAll, h2]
+    rw [ih _ (vcat2_wf acc b _ ha hbw h2) (fun x hx => hwf x (List.mem_cons_of_mem _ hx)) rfl
+      (fun x hx => h x (List.mem_cons_of_mem _ hx))]
+    simp [sumRows, Nat.add_assoc]
+
+
+theorem modelImpl_linear (r : Routine) (hr : r.linear = true) : (modelImpl r : Mat α → Mat α → Nat → _) = copyLin := by
+  cases r <;> first | rfl | cases hr
+
+section run
+variable (impl : Routine → Mat α → Mat α → Nat → Except Err (Mat α × Nat))
+  (himpl : ∀ r m dst off, Mat.wf' m → impl r m dst off = modelImpl r m dst off)
+include himpl
+
+/-- `offset += e.copy_into(&self.out, offset)` over all arguments: the blocks' elements one after the other -/
+theorem runLoop_lin (r : Routine) (hr : r.linear = true) (f : Nat) :
+    ∀ (es : List (Mat α)) (pre mid post : List α) (R C : Nat), (∀ e ∈ es, Mat.wf' e) →
+      (es.flatMap (·.data)).length ≤ mid.length →
+      runLoop impl ⟨f, r, .offset, .add⟩ es (⟨R, C, pre ++ mid ++ post⟩, pre.length)
+        = .ok (⟨R, C, pre ++ es.flatMap (·.data) ++ mid.drop (es.flatMap (·.data)).length ++ post⟩,
+               pre.length + (es.flatMap (·.data)).length) := by
+  intro es
+  induction es with
+  | nil => intro pre mid post R C _ _; simp [runLoop]
+  | cons e es ih =>
+    intro pre mid post R C hwf hlen
+    have he : Mat.wf' e := hwf e List.mem_cons_self
+    simp only [List.flatMap_cons, List.length_append] at hlen
+    simp only [runLoop, runStep, himpl r e _ _ he, modelImpl_linear r hr, copyLin,
+      blit_mid e.data pre mid post (by omega)]
+    have := ih (pre ++ e.data) (mid.drop e.data.length) post R C (fun x hx => hwf x (List.mem_cons_of_mem _ hx))
+      (by simp only [List.length_drop]; omega)
+    rw [← he]
+    simp only [List.length_append] at this
+    rw [this]
+    simp [List.append_assoc, Nat.add_assoc]
+
+end run
+
+section seq
+variable (impl : Routine → Mat α → Mat α → Nat → Except Err (Mat α × Nat))
+
+theorem runSeq2 (r : Routine) (a b out : Mat α) :
+    mapE (runSeq impl [a, b] (seqOf r 2) (out, 0)) (·.1)
+      = mapE (runLoop impl ⟨0, r, .offset, .add⟩ [a, b] (out, 0)) (·.1) := by
+  simp only [seqOf, runSeq, runLoop, runStep, List.range_zero, List.map_nil, List.nil_append,
+    List.getElem?_cons_zero, List.getElem?_cons_succ, Nat.zero_add]
+  cases impl r a out 0 with
+  | error e => rfl
+  | ok p =>
+    simp only
+    cases impl r b p.1 p.2 with
+    | error e => rfl
+    | ok q => rfl
+
+theorem runSeq3 (r : Routine) (a b c out : Mat α) :
+    mapE (runSeq impl [a, b, c] (seqOf r 3) (out, 0)) (·.1)
+      = mapE (runLoop impl ⟨0, r, .offset, .add⟩ [a, b, c] (out, 0)) (·.1) := by
+  simp only [seqOf, runSeq, runLoop, runStep, List.range_succ, List.range_zero, List.map_nil, List.nil_append, List.map_cons,
+    List.cons_append,
+    List.getElem?_cons_zero, List.getElem?_cons_succ, Nat.zero_add]
+  cases impl r a out 0 with
+  | error e => rfl
+  | ok p =>
+    simp only
+    cases impl r b p.1 p.2 with
+    | error e => rfl
+    | ok q =>
+      simp only
+      cases impl r c q.1 (p.2 + q.2) with
+      | error e => rfl
+      | ok q => rfl
+
+theorem runSeq4 (r : Routine) (a b c d out : Mat α) :
+    mapE (runSeq impl [a, b, c, d] (seqOf r 4) (out, 0)) (·.1)
+      = mapE (runLoop impl ⟨0, r, .offset, .add⟩ [a, b, c, d] (out, 0)) (·.1) := by
+  simp only [seqOf, runSeq, runLoop, runStep, List.range_succ, List.range_zero, List.map_nil, List.nil_append, List.map_cons,
+    List.cons_append, List.map_append,
+    List.getElem?_cons_zero, List.getElem?_cons_succ, Nat.zero_add]
+  cases impl r a out 0 with
+  | error e => rfl
+  | ok p =>
+    simp only
+    cases impl r b p.1 p.2 with
+    | error e => rfl
+    | ok q =>
+      simp only
+      cases impl r c q.1 (p.2 + q.2) with
+      | error e => rfl
+      | ok s =>
+        simp only
+        cases impl r d s.1 (p.2 + q.2 + s.2) with
+        | error e => rfl
+        | ok q => rfl
+
+end seq
+
+/-- the elements a block contributes -/
+def chunk (a : Operand α) : List α := (blockOf a).data
+
+/-- the index advance of the `byKind` wiring -/
+def advOf (madv : Dim) (sadv : Nat) : Operand α → Nat
+  | .scalar _ => sadv
+  | .mat m => madv.of m
+
+/-- a buffer segment after the matrices among the arguments were copied to their places -/
+def overlayMats : List (Operand α) → List α → List α
+  | [], mid => mid
+  | .scalar _ :: as, mid => mid.take 1 ++ overlayMats as (mid.drop 1)
+  | .mat m :: as, mid => m.data ++ overlayMats as (mid.drop m.data.length)
+
+/-- … after the scalars were written to theirs -/
+def overlayScalars : List (Operand α) → List α → List α
+  | [], mid => mid
+  | .scalar x :: as, mid => x :: overlayScalars as (mid.drop 1)
+  | .mat m :: as, mid => mid.take m.data.length ++ overlayScalars as (mid.drop m.data.length)
+
+theorem chunk_scalar (x : α) : chunk (.scalar x) = [x] := rfl
+theorem chunk_mat (m : Mat α) : chunk (.mat m) = m.data := rfl
+
+theorem overlayMats_length : ∀ (args : List (Operand α)) (mid : List α), (args.flatMap chunk).length ≤ mid.length →
+    (overlayMats args mid).length = mid.length := by
+  intro args
+  induction args with
+  | nil => intro mid _; rfl
+  | cons a as ih =>
+    intro mid h
+    simp only [List.flatMap_cons, List.length_append] at h
+    cases a with
+    | scalar x =>
+      simp only [chunk_scalar, List.length_cons, List.length_nil] at h
+      simp only [overlayMats, List.length_append, List.length_take]
+      rw [ih _ (by simp only [List.length_drop]; omega), List.length_drop]; omega
+    | mat m =>
+      simp only [chunk_mat] at h
+      simp only [overlayMats, List.length_append]
+      rw [ih _ (by simp only [List.length_drop]; omega), List.length_drop]; omega
+
+theorem overlay_final : ∀ (args : List (Operand α)) (mid : List α), mid.length = (args.flatMap chunk).length →
+    overlayScalars args (overlayMats args mid) = args.flatMap chunk := by
+  intro args
+  induction args with
+  | nil =>
+    intro mid h
+    have : mid = [] := List.length_eq_zero_iff.mp (by simpa using h)
+    subst this; rfl
+  | cons a as ih =>
+    intro mid h
+    simp only [List.flatMap_cons, List.length_append] at h
+    cases a with
+    | scalar x =>
+      simp only [chunk_scalar, List.length_cons, List.length_nil] at h
+      have h1 : (mid.take 1).length = 1 := by rw [List.length_take]; omega
+      simp only [overlayMats, overlayScalars, List.flatMap_cons, chunk_scalar, List.cons_append, List.nil_append]
+      rw [List.drop_left' h1, ih _ (by simp only [List.length_drop]; omega)]
+    | mat m =>
+      simp only [chunk_mat] at h
+      simp only [overlayMats, overlayScalars, List.flatMap_cons, chunk_mat, List.take_left', List.drop_left']
+      rw [ih _ (by simp only [List.length_drop]; omega)]
+
+section run
+variable (impl : Routine → Mat α → Mat α → Nat → Except Err (Mat α × Nat))
+  (himpl : ∀ r m dst off, Mat.wf' m → impl r m dst off = modelImpl r m dst off)
+include himpl
+
+theorem copyMats_overlay (r : Routine) (hr : r.linear = true) (madv : Dim) (sadv : Nat) :
+    ∀ (args : List (Operand α)) (pre mid post : List α) (R C : Nat),
+      (∀ a ∈ args, advOf madv sadv a = (chunk a).length) → (∀ a ∈ args, Mat.wf' (blockOf a)) →
+      (args.flatMap chunk).length ≤ mid.length →
+      copyMats impl r (indexArgs madv sadv pre.length args) ⟨R, C, pre ++ mid ++ post⟩
+        = .ok ⟨R, C, pre ++ overlayMats args mid ++ post⟩ := by
+  intro args
+  induction args with
+  | nil => intro pre mid post R C _ _ _; simp [indexArgs, copyMats, overlayMats]
+  | cons a as ih =>
+    intro pre mid post R C hadv hwf hlen
+    simp only [List.flatMap_cons, List.length_append] at hlen
+    have hadv' := fun x hx => hadv x (List.mem_cons_of_mem _ hx)
+    have hwf' := fun x hx => hwf x (List.mem_cons_of_mem _ hx)
+    cases a with
+    | scalar x =>
+      have ha : sadv = 1 := hadv (.scalar x) List.mem_cons_self
+      simp only [chunk_scalar, List.length_cons, List.length_nil] at hlen
+      have h1 : (mid.take 1).length = 1 := by rw [List.length_take]; omega
+      have := ih (pre ++ mid.take 1) (mid.drop 1) post R C hadv' hwf' (by simp only [List.length_drop]; omega)
+      simp only [List.length_append, h1, List.append_assoc, List.take_append_drop] at this
+      subst ha
+      simp only [indexArgs, copyMats, overlayMats, List.append_assoc]
+      exact this
+    | mat m =>
+      have ha : madv.of m = m.data.length := hadv (.mat m) List.mem_cons_self
+      have hm : Mat.wf' m := hwf (.mat m) List.mem_cons_self
+      simp only [chunk_mat] at hlen
+      have := ih (pre ++ m.data) (mid.drop m.data.length) post R C hadv' hwf' (by simp only [List.length_drop]; omega)
+      simp only [List.length_append, List.append_assoc] at this
+      simp only [indexArgs, copyMats, ha, overlayMats, himpl r m _ _ hm, modelImpl_linear r hr, copyLin,
+        blit_mid m.data pre mid post (by omega)]
+      simp only [List.append_assoc]
+      exact this
+
+end run
+
+theorem writeScalars_overlay (madv : Dim) (sadv : Nat) :
+    ∀ (args : List (Operand α)) (pre mid post : List α) (R C : Nat),
+      (∀ a ∈ args, advOf madv sadv a = (chunk a).length) →
+      (args.flatMap chunk).length ≤ mid.length →
+      writeScalars (indexArgs madv sadv pre.length args) ⟨R, C, pre ++ mid ++ post⟩
+        = .ok ⟨R, C, pre ++ overlayScalars args mid ++ post⟩ := by
+  intro args
+  induction args with
+  | nil => intro pre mid post R C _ _; simp [indexArgs, writeScalars, overlayScalars]
+  | cons a as ih =>
+    intro pre mid post R C hadv hlen
+    simp only [List.flatMap_cons, List.length_append] at hlen
+    have hadv' := fun x hx => hadv x (List.mem_cons_of_mem _ hx)
+    cases a with
+    | scalar x =>
+      have ha : sadv = 1 := hadv (.scalar x) List.mem_cons_self
+      simp only [chunk_scalar, List.length_cons, List.length_nil] at hlen
+      subst ha
+      cases mid with
+      | nil => simp at hlen
+      | cons y ys =>
+        simp only [List.length_cons] at hlen
+        have := ih (pre ++ [x]) ys post R C hadv' (by omega)
+        simp only [List.length_append, List.length_cons, List.length_nil, List.append_assoc] at this
+        have hlt : pre.length < (pre ++ (y :: ys ++ post)).length := by simp only [List.length_append, List.length_cons]; omega
+        have hset : (pre ++ (y :: ys ++ post)).set pre.length x = pre ++ ([x] ++ (ys ++ post)) := by
+          rw [List.set_append_right _ _ (Nat.le_refl _)]
+          simp
+        simp only [indexArgs, writeScalars, writeLin, overlayScalars, List.append_assoc, hlt, if_true, hset, List.drop_succ_cons,
+          List.drop_zero]
+        exact this
+    | mat m =>
+      have ha : madv.of m = m.data.length := hadv (.mat m) List.mem_cons_self
+      simp only [chunk_mat] at hlen
+      have hl : (mid.take m.data.length).length = m.data.length := by rw [List.length_take]; omega
+      have := ih (pre ++ mid.take m.data.length) (mid.drop m.data.length) post R C hadv' (by simp only [List.length_drop]; omega)
+      simp only [List.length_append, hl, List.append_assoc, List.take_append_drop] at this
+      simp only [indexArgs, writeScalars, ha, overlayScalars, List.append_assoc]
+      exact this
+
+
+theorem blit_spec (x d : List α) (p : Nat) (h : p + x.length ≤ d.length) :
+    ∃ r, blit x d p = .ok r ∧ r.length = d.length ∧
+      ∀ k, r[k]? = if p ≤ k ∧ k < p + x.length then x[k - p]? else d[k]? := by
+  by_cases h0 : x.length = 0
+  · have : x = [] := List.length_eq_zero_iff.mp h0
+    subst this
+    refine ⟨d, by simp [blit], rfl, ?_⟩
+    intro k
+    have : ¬ (p ≤ k ∧ k < p + ([] : List α).length) := by simp only [List.length_nil]; omega
+    simp only [this, if_false]
+  · refine ⟨d.take p ++ x ++ d.drop (p + x.length), by simp [blit, h0, h], ?_, ?_⟩
+    · simp only [List.length_append, List.length_take, List.length_drop]; omega
+    · intro k
+      simp only [List.getElem?_append, List.length_take, List.length_append, List.getElem?_take, List.getElem?_drop]
+      grind
+
+/-- position `j·R + i` lies in the stretch of `h` positions starting at row `o` of column `c` exactly when `j = c`
+    and `i` is one of the rows `o … o+h-1` -/
+theorem lin_range (R i j c o h : Nat) (hi : i < R) (ho : o + h ≤ R) :
+    (o + c * R ≤ j * R + i ∧ j * R + i < o + c * R + h) ↔ (j = c ∧ o ≤ i ∧ i < o + h) := by
+  rcases Nat.lt_trichotomy j c with hlt | heq | hgt
+  · have := Nat.mul_le_mul_right R (show j + 1 ≤ c from hlt)
+    rw [Nat.succ_mul] at this
+    constructor <;> intro h' <;> omega
+  · subst heq
+    constructor <;> intro h' <;> omega
+  · have := Nat.mul_le_mul_right R (show c + 1 ≤ j from hgt)
+    rw [Nat.succ_mul] at this
+    constructor <;> intro h' <;> omega
+
+theorem blitCols_spec (src : Mat α) (hs : Mat.wf' src) (R C o : Nat) (ho : o + src.rows ≤ R) (hC : src.cols ≤ C) :
+    ∀ (n c : Nat) (d : List α), c + n = src.cols → d.length = R * C →
+      ∃ r, blitCols src R c n d (o + c * R) = .ok r ∧ r.length = d.length ∧
+        ∀ i j, i < R → j < C →
+          r[j * R + i]? = if c ≤ j ∧ j < c + n ∧ o ≤ i ∧ i < o + src.rows then src.data[j * src.rows + (i - o)]?
+                          else d[j * R + i]? := by
+  intro n
+  induction n with
+  | zero =>
+    intro c d _ _
+    refine ⟨d, rfl, rfl, ?_⟩
+    intro i j _ _
+    have : ¬ (c ≤ j ∧ j < c + 0 ∧ o ≤ i ∧ i < o + src.rows) := by omega
+    simp only [this, if_false]
+  | succ n ih =>
+    intro c d hc hd
+    have hl := colOf_length src hs c (by omega)
+    have hin : o + c * R + (colOf src c).length ≤ d.length := by
+      have := Nat.mul_le_mul_right R (show c + 1 ≤ C by omega)
+      rw [Nat.succ_mul] at this
+      rw [hl, hd, Nat.mul_comm R C]; omega
+    obtain ⟨r1, hb, hlen1, hget1⟩ := blit_spec (colOf src c) d (o + c * R) hin
+    obtain ⟨r, hr, hlen, hget⟩ := ih (c + 1) r1 (by omega) (by rw [hlen1, hd])
+    rw [Nat.succ_mul, ← Nat.add_assoc] at hr
+    refine ⟨r, by simp only [blitCols, hb, hr], by rw [hlen, hlen1], ?_⟩
+    intro i j hi hj
+    rw [hget i j hi hj, hget1, hl]
+    have hrange := lin_range R i j c o src.rows hi ho
+    by_cases hjc : j = c
+    · subst hjc
+      by_cases hio : o ≤ i ∧ i < o + src.rows
+      · have h1 : o + j * R ≤ j * R + i ∧ j * R + i < o + j * R + src.rows := hrange.mpr ⟨rfl, hio⟩
+        have h2 : ¬ (j + 1 ≤ j ∧ j < j + 1 + n ∧ o ≤ i ∧ i < o + src.rows) := by omega
+        have h3 : j ≤ j ∧ j < j + (n + 1) ∧ o ≤ i ∧ i < o + src.rows := by omega
+        rw [if_neg h2, if_pos h1, if_pos h3]
+        rw [show j * R + i - (o + j * R) = i - o by omega, colOf_get src j (i - o) (by omega)]
+      · have h1 : ¬ (o + j * R ≤ j * R + i ∧ j * R + i < o + j * R + src.rows) := fun h => hio (hrange.mp h).2
+        have h2 : ¬ (j + 1 ≤ j ∧ j < j + 1 + n ∧ o ≤ i ∧ i < o + src.rows) := by omega
+        have h3 : ¬ (j ≤ j ∧ j < j + (n + 1) ∧ o ≤ i ∧ i < o + src.rows) := by omega
+        rw [if_neg h2, if_neg h1, if_neg h3]
+    · have h1 : ¬ (o + c * R ≤ j * R + i ∧ j * R + i < o + c * R + src.rows) := fun h => hjc (hrange.mp h).1
+      rw [if_neg h1]
+      have : (c + 1 ≤ j ∧ j < c + 1 + n ∧ o ≤ i ∧ i < o + src.rows) ↔ (c ≤ j ∧ j < c + (n + 1) ∧ o ≤ i ∧ i < o + src.rows) := by
+        constructor <;> intro h <;> omega
+      simp only [this]
+
+
+/-- `copy_into_row_major` places the source as a block with its top left corner at row `o`, column 0 -/
+theorem copyRowMajor_spec (src dst : Mat α) (o : Nat) (hs : Mat.wf' src) (hd : Mat.wf' dst)
+    (ho : o + src.rows ≤ dst.rows) (hC : src.cols ≤ dst.cols) :
+    ∃ out, copyRowMajor src dst o = .ok (out, src.rows) ∧ out.rows = dst.rows ∧ out.cols = dst.cols ∧ Mat.wf' out ∧
+      ∀ i j, i < dst.rows → j < dst.cols →
+        out.get? i j = if o ≤ i ∧ i < o + src.rows ∧ j < src.cols then src.get? (i - o) j else dst.get? i j := by
+  obtain ⟨r, hr, hlen, hget⟩ := blitCols_spec src hs dst.rows dst.cols o ho hC src.cols 0 dst.data (by omega) hd
+  rw [Nat.zero_mul, Nat.add_zero] at hr
+  have hlt : ¬ dst.rows < src.rows := by omega
+  refine ⟨⟨dst.rows, dst.cols, r⟩, by simp only [copyRowMajor, hlt, if_false, hr], rfl, rfl, by simp only [Mat.wf', hlen]; exact hd, ?_⟩
+  intro i j hi hj
+  have h1 : i < dst.rows ∧ j < dst.cols := ⟨hi, hj⟩
+  simp only [Mat.get?]
+  rw [if_pos h1, if_pos h1, hget i j hi hj]
+  by_cases hc : o ≤ i ∧ i < o + src.rows ∧ j < src.cols
+  · have h2 : 0 ≤ j ∧ j < 0 + src.cols ∧ o ≤ i ∧ i < o + src.rows := by omega
+    have h3 : i - o < src.rows ∧ j < src.cols := by omega
+    rw [if_pos hc, if_pos h2, if_pos h3]
+  · have h2 : ¬ (0 ≤ j ∧ j < 0 + src.cols ∧ o ≤ i ∧ i < o + src.rows) := by omega
+    rw [if_neg hc, if_neg h2]
+
+section run
+variable (impl : Routine → Mat α → Mat α → Nat → Except Err (Mat α × Nat))
+  (himpl : ∀ r m dst off, Mat.wf' m → impl r m dst off = modelImpl r m dst off)
+include himpl
+
+/-- `offset += e.copy_into_row_major(&self.out, offset)` over all arguments: the blocks stacked from row `o` on -/
+theorem runLoop_rowMajor (f : Nat) :
+    ∀ (es : List (Mat α)) (o : Nat) (out : Mat α), (∀ e ∈ es, Mat.wf' e) → (∀ e ∈ es, e.cols = out.cols) → Mat.wf' out →
+      o + sumRows es ≤ out.rows →
+      ∃ out', runLoop impl ⟨f, .copy_into_row_major, .offset, .add⟩ es (out, o) = .ok (out', o + sumRows es) ∧
+        out'.rows = out.rows ∧ out'.cols = out.cols ∧ Mat.wf' out' ∧
+        ∀ i j, i < out.rows → j < out.cols →
+          out'.get? i j = if o ≤ i ∧ i < o + sumRows es then vGet es (i - o) j else out.get? i j := by
+  intro es
+  induction es with
+  | nil =>
+    intro o out _ _ hw _
+    refine ⟨out, by simp [runLoop, sumRows], rfl, rfl, hw, ?_⟩
+    intro i j _ _
+    have : ¬ (o ≤ i ∧ i < o + sumRows ([] : List (Mat α))) := by simp only [sumRows, List.map_nil, List.sum_nil]; omega
+    rw [if_neg this]
+  | cons e es ih =>
+    intro o out hwf hcols hw ho
+    have he : Mat.wf' e := hwf e List.mem_cons_self
+    have hec : e.cols = out.cols := hcols e List.mem_cons_self
+    have hsum : sumRows (e :: es) = e.rows + sumRows es := by simp [sumRows]
+    rw [hsum] at ho
+    obtain ⟨o1, h1, hr1, hc1, hw1, hg1⟩ := copyRowMajor_spec e out o he hw (by omega) (by omega)
+    obtain ⟨o2, h2, hr2, hc2, hw2, hg2⟩ := ih (o + e.rows) o1 (fun x hx => hwf x (List.mem_cons_of_mem _ hx))
+      (fun x hx => by rw [hc1]; exact hcols x (List.mem_cons_of_mem _ hx)) hw1 (by rw [hr1]; omega)
+    refine ⟨o2, ?_, by rw [hr2, hr1], by rw [hc2, hc1], hw2, ?_⟩
+    · simp only [runLoop, runStep, himpl _ e _ _ he, modelImpl, h1, h2, hsum, Nat.add_assoc]
+    · intro i j hi hj
+      rw [hg2 i j (by rw [hr1]; exact hi) (by rw [hc1]; exact hj), hg1 i j hi hj, hsum]
+      simp only [vGet]
+      by_cases ha : o ≤ i ∧ i < o + e.rows
+      · have c1 : ¬ (o + e.rows ≤ i ∧ i < o + e.rows + sumRows es) := by omega
+        have c2 : o ≤ i ∧ i < o + e.rows ∧ j < e.cols := by omega
+        have c3 : o ≤ i ∧ i < o + (e.rows + sumRows es) := by omega
+        have c4 : i - o < e.rows := by omega
+        rw [if_neg c1, if_pos c2, if_pos c3, if_pos c4]
+      · have c2 : ¬ (o ≤ i ∧ i < o + e.rows ∧ j < e.cols) := by omega
+        by_cases hb : o + e.rows ≤ i ∧ i < o + e.rows + sumRows es
+        · have c3 : o ≤ i ∧ i < o + (e.rows + sumRows es) := by omega
+          have c4 : ¬ i - o < e.rows := by omega
+          rw [if_pos hb, if_pos c3, if_neg c4, show i - (o + e.rows) = i - o - e.rows by omega]
+        · have c3 : ¬ (o ≤ i ∧ i < o + (e.rows + sumRows es)) := by omega
+          rw [if_neg hb, if_neg c2, if_neg c3]
+
+end run
+
+/-- two well-formed matrices of one shape with the same elements are the same matrix -/
+theorem mat_ext (a b : Mat α) (hr : a.rows = b.rows) (hc : a.cols = b.cols) (ha : Mat.wf' a) (hb : Mat.wf' b)
+    (h : ∀ i j, i < a.rows → j < a.cols → a.get? i j = b.get? i j) : a = b := by
+  obtain ⟨R, C, da⟩ := a
+  obtain ⟨R', C', db⟩ := b
+  simp only at hr hc
+  subst hr hc
+  simp only [Mat.wf'] at ha hb
+  congr 1
+  apply List.ext_getElem?
+  intro k
+  by_cases hk : k < R * C
+  · have hR : 0 < R := by
+      rcases Nat.eq_zero_or_pos R with h0 | h0
+      · subst h0; simp at hk
+      · exact h0
+    have hj : k / R < C := by rw [Nat.div_lt_iff_lt_mul hR, Nat.mul_comm]; exact hk
+    have hi : k % R < R := Nat.mod_lt _ hR
+    have := h (k % R) (k / R) hi hj
+    simp only [Mat.get?, hi, hj, and_self, if_true] at this
+    rw [show k / R * R + k % R = k by rw [Nat.mul_comm]; exact Nat.div_add_mod k R] at this
+    exact this
+  · rw [List.getElem?_eq_none (by omega), List.getElem?_eq_none (by omega)]
+
+
 end MechVerif.ConcatIR
